@@ -20,7 +20,7 @@ BASES = {
 # where a statement may be inserted so that it is the first / a middle / the last top-level statement
 SLOTS = {"b1": (1, 8, 13), "b2": (1, 7, 17), "b3": (1, 5, 18)}
 SNIPPETS = {
-    "lexical": [".ascii 'abc", "lda.q 1", "lda 1,z", ".foo 1", "lda #!1"],
+    "lexical": [".ascii 'abc", "lda.q 1", "lda 1,z", ".foo 1", "lda #!1", "/* never closed", "/*/"],
     "syntax": ["lda.w", "sta.w #", ".macro (", "= 5", "}", "{\nnop\n}\n}"],
     # `faulty` is a macro other cases of this family define: it must still be undefined in a source that does not
     "undefined_macro": ["nosuchmacro(1)", "faulty()"],
